@@ -188,6 +188,17 @@ Theorem C04_flag_means_oracle_used_up : forall ak sc ne tf c os nt s l,
 Proof. exact off_learn_flag. Qed.
 Print Assumptions C04_flag_means_oracle_used_up.
 
+(* how many steps one collect_rollouts call takes: exactly train_freq steps (unit "step"); with unit "episode" it ends exactly when the
+   train_freq-th episode of this call ends - every stored done counts once and the last stored transition is a done *)
+Theorem C04_rollout_length : forall ak sc ne tf orcs steps eps os nt s l,
+  off_rollout ak sc ne tf orcs steps eps os nt = (s, l) -> l_exh s = false ->
+  match tf with
+  | TfStep f => steps <= f -> steps + Z.of_nat (length l) = f
+  | TfEpis f => eps <= f -> eps + Z.of_nat (length (filter t_done l)) = f /\ (l <> [] -> forall d, t_done (last l d) = true)
+  end.
+Proof. exact off_rollout_counts. Qed.
+Print Assumptions C04_rollout_length.
+
 (* ---- non-vacuity ---- *)
 Definition ex4_sc : script :=
   [mk_episode 10 0 [mk_sstep 11 4 false false 0; mk_sstep 12 (-8) false true 0];
